@@ -569,7 +569,7 @@ pub fn run(args: &Args) -> ! {
     bounds.push(json!({"family": "pumps", "nesting_families": PUMPS.len(), "nesting_depths": sizes,
         "flat_families": FLAT_PUMPS.len(), "flat_repetitions": flat_sizes, "cases": pump_cases}));
 
-    if total.outcomes.len() < 1000 {
+    if total.failures.total() == 0 && total.outcomes.len() < 1000 {
         machinery_failure(&format!("vacuous run: {} distinct outcomes", total.outcomes.len()));
     }
 
